@@ -4,7 +4,7 @@ import senderlib
 
 # property -> list of (family, depth, n_quick, n_thorough)   (None = every generated behaviour)
 PLANS = {
-    "C08": [("S1", 0, 3000, None), ("S5", 0, 800, 5000), ("S2", 5, 500, 3000)],
+    "C08": [("S1", 0, 3000, None), ("S10", 0, None, None), ("S5", 0, 800, 5000), ("S2", 5, 500, 3000)],
     "C10": [("S4", 0, 1500, None), ("S4x", 0, None, None), ("S1", 0, 600, 6000), ("S2", 5, 400, 3000)],
     "C11": [("S2", 5, 3000, None), ("S2", 6, 0, 30000), ("S5", 0, 1500, None), ("S1", 0, 500, 5000)],
     "C12": [("S1", 0, 3000, 60000), ("S2", 5, 1500, None), ("S3", 0, 800, 8000), ("S5", 0, 500, 4000), ("S9", 0, None, None)],
